@@ -1243,6 +1243,12 @@ def rule_schema_dj(crate, prop, tier):
                                 r, i = load_parts(q_)
                                 if r == Dm and i == u:
                                     return True
+                    if a[0] == "le" and a[1] == key and a[2][0] == "mem":
+                        # `if dist[u] < key { continue }`: a popped key is never below dist[u] (every push stores its key into
+                        # dist[] and dist[] only decreases: J3), so key <= dist[u] is key == dist[u]
+                        r, i = load_parts(a[2])
+                        if r == Dm and i == u:
+                            return True
                 return False
             o.check(fx.holds(b, current), tr, "J4-emit-only-current",
                     "a popped entry is emitted without a dominating test `popped key == dist[popped vertex]` "
@@ -1260,36 +1266,48 @@ def rule_schema_dj(crate, prop, tier):
         # J6 seeds
         ctor = ctor_of(crate, S)
         if o.check(ctor is not None, tr, "J6-ctor", "constructor `new` not found"):
-            can, cfx, lev, item = sources_loop(crate, ctor)
+            sc = SeedCtx(crate, ctor)
+            can = sc.pan
+            item = sc.item if sc.ok else None
             lit, lb = literal_of(crate, can, S)
-            if o.check(lev is not None and lit is not None, tr, "J6-seed-loop", "`new` has no loop over the sources"):
+            if o.check(sc.ok and lit is not None, tr, "J6-seed-loop", "`new` has no loop over the sources"):
+                san = sc.an
                 Wn = tr.Wfield
                 Dn = dists[0]
-                hL = local_region_of_value(lit[Wn])
+                hL = sc.reg(local_region_of_value(lit[Wn]))
                 dv = lit[Dn]
-                home = literal_home(can, S)
+                home = literal_home(can, S) if san is can else None
                 if hL is None and home is not None:
                     hL = home + "." + Wn
                 o.check(dv[0] == "call" and dv[1] == "alloc::vec::from_elem" and const_is(dv[3][0], 18446744073709551615),
                         tr, "J6-fill-max", "`new` does not pre-fill dist[] with usize::MAX")
                 seeded = False
-                for pu in can.events:
-                    if pu["k"] == "call" and pu["key"] in PUSH_KEYS and pu["args"] and pu["args"][0][0] == "addr" and pu["args"][0][1] == hL:
+                for pu in san.events:
+                    if pu["k"] == "call" and pu["key"] in PUSH_KEYS and pu["args"] and recv_region(san, pu["args"][0]) == hL and hL is not None:
                         E = pu["args"][1]
                         if E[0] == "agg" and E[3][0][0] == "agg" and const_is(E[3][0][3][0], 0) and \
                                 (E[3][1] == item or (E[3][1][0] == "agg" and item in E[3][1][3])):
                             seeded = True
                 o.check(seeded, tr, "J6-seed-push", "sources are not pushed with key Reverse(0)")
                 zero = False
-                for ev in can.events:
+                dL = local_region_of_value(dv)
+                if dL is None:
+                    cands = {var for (var, ver), v in can.term_of.items() if v == dv and var.startswith("L") and var[1:].isdigit()}
+                    if len(cands) == 1:
+                        dL = next(iter(cands))
+                for ev in san.events:
                     if ev["k"] == "store":
                         c, i = store_elem(ev)
-                        if i == item and const_is(ev["val"], 0) and c and c[0] == "at" and can.term_of.get((c[1], c[3])) == dv:
+                        if not (i == item and const_is(ev["val"], 0) and c and c[0] == "at"):
+                            continue
+                        if san is can and can.term_of.get((c[1], c[3])) == dv:
                             zero = True
-                        if i == item and const_is(ev["val"], 0) and c and c[0] == "at" and home is not None and c[1] == home + "." + Dn:
+                        if dL is not None and c[1] == sc.reg(dL):
+                            zero = True
+                        if home is not None and c[1] == home + "." + Dn:
                             zero = True
                 o.check(zero, tr, "J6-seed-dist-0", "dist[source] is not set to 0 by `new`")
-                o.check(complete_scan(can, cfx, lev), tr, "J6-all-sources", "the loop over the sources can end early")
+                o.check(sc.complete, tr, "J6-all-sources", "the loop over the sources can end early")
         if nm == "DijkstraDist":
             check_fold(crate, o, S, "distances", tr, fill=("const", "usize", 18446744073709551615), idx_path=(0,), val_path=(1,))
     return o.report(floors={"Dijkstra iterators": (o.instances, 1)})
